@@ -278,6 +278,52 @@ func (u *upstream03) Exec(_ context.Context, qCtx *query_context.Context) error 
 	return nil
 }
 
+// genOutcome03 scripts what the last plugin does with q.
+func (r *Run) genOutcome03(q q03) outcome03 {
+	out := outcome03{kind: []string{"ans", "ans", "ans", "ans", "none", "err", "errresp"}[r.Rng.Intn(7)]}
+	out.rcode = []int{0, 0, 0, 2, 3, 5, r.Rng.Intn(16)}[r.Rng.Intn(7)]
+	if q.clientOpt() != nil && r.Rng.Intn(8) == 0 {
+		out.rcode = []int{16, 23}[r.Rng.Intn(2)] // extended rcode, needs the client's OPT
+	}
+	out.nAns = r.Rng.Intn(4)
+	if r.Rng.Intn(4) == 0 {
+		out.nAns = 1 + r.Rng.Intn(30)
+		out.ansSize = 1 + r.Rng.Intn(250) // answers of any size up to ~7.6 KB
+	}
+	if r.Rng.Intn(2) == 0 {
+		out.hasUp = true
+		for _, c := range []uint16{dns.EDNS0SUBNET, dns.EDNS0COOKIE, dns.EDNS0PADDING, 65001} {
+			if r.Rng.Intn(2) == 0 {
+				out.upOpt = append(out.upOpt, c)
+			}
+		}
+		if len(out.upOpt) == 0 {
+			out.upOpt = []uint16{dns.EDNS0COOKIE}
+		}
+	}
+	out.optFirst = r.Rng.Intn(4) == 0
+	return out
+}
+
+// expect: the rcode the property demands for this outcome and the number of answer records the plugin gave (-1: none given).
+func (o outcome03) expect() (rcode, nAns int) {
+	switch o.kind {
+	case "err", "errresp":
+		return 2, -1
+	case "none":
+		return 5, -1
+	}
+	return o.rcode, o.nAns
+}
+
+// entryOp: the outcome as the model driver reads it (record sizes are not part of the model).
+func (o outcome03) entryOp() string {
+	if o.kind == "ans" && o.ansSize > 0 {
+		return fmt.Sprintf("ans:%d:%d:%s", o.rcode, o.nAns, map[bool]string{true: codesOp03(o.upOpt), false: "-"}[o.hasUp])
+	}
+	return o.op()
+}
+
 // ---- reply parsing (header and question by hand)
 
 type reply03 struct {
@@ -460,46 +506,13 @@ func runC03(r *Run) {
 	n := r.N(2500, 60000)
 	for i := 0; i < n; i++ {
 		q := r.genQ03()
-		out := outcome03{kind: []string{"ans", "ans", "ans", "ans", "none", "err", "errresp"}[r.Rng.Intn(7)]}
-		out.rcode = []int{0, 0, 0, 2, 3, 5, r.Rng.Intn(16)}[r.Rng.Intn(7)]
-		if q.clientOpt() != nil && r.Rng.Intn(8) == 0 {
-			out.rcode = []int{16, 23}[r.Rng.Intn(2)] // extended rcode, needs the client's OPT
-		}
-		out.nAns = r.Rng.Intn(4)
-		if r.Rng.Intn(4) == 0 {
-			out.nAns = 1 + r.Rng.Intn(30)
-			out.ansSize = 1 + r.Rng.Intn(250) // answers of any size up to ~7.6 KB
-		}
-		if r.Rng.Intn(2) == 0 {
-			out.hasUp = true
-			for _, c := range []uint16{dns.EDNS0SUBNET, dns.EDNS0COOKIE, dns.EDNS0PADDING, 65001} {
-				if r.Rng.Intn(2) == 0 {
-					out.upOpt = append(out.upOpt, c)
-				}
-			}
-			if len(out.upOpt) == 0 {
-				out.upOpt = []uint16{dns.EDNS0COOKIE}
-			}
-		}
-		out.optFirst = r.Rng.Intn(4) == 0
+		out := r.genOutcome03(q)
 		via := vias[r.Rng.Intn(len(vias))]
 		up := &upstream03{out: out}
 		h := server_handler.NewEntryHandler(server_handler.EntryHandlerOpts{Entry: up})
 		payload, got := deliver03(h, via, q.msg())
 		desc := map[string]any{"query": q.op(), "arrived_via": via, "plugin_outcome": out.op()}
-		expect := -1
-		switch out.kind {
-		case "err", "errresp":
-			expect = 2
-		case "none":
-			expect = 5
-		default:
-			expect = out.rcode
-		}
-		nAns := -1
-		if out.kind == "ans" {
-			nAns = out.nAns
-		}
+		expect, nAns := out.expect()
 		oracle03(r, q, via, payload, got, desc, expect, nAns)
 		implOut := "drop"
 		if got {
@@ -513,10 +526,7 @@ func runC03(r *Run) {
 			// the http front end answers malformed queries with an HTTP error, not with a DNS reply
 			implOut = "drop"
 		}
-		entry := out.op()
-		if out.kind == "ans" && out.ansSize > 0 {
-			entry = fmt.Sprintf("ans:%d:%d:%s", out.rcode, out.nAns, map[bool]string{true: codesOp03(out.upOpt), false: "-"}[out.hasUp])
-		}
+		entry := out.entryOp()
 		udp := "0"
 		if via == "udp" {
 			udp = "1"
@@ -558,7 +568,14 @@ func runC03(r *Run) {
 		h := server_handler.NewEntryHandler(server_handler.EntryHandlerOpts{Entry: entry})
 		serveTCP(r, 2+r.Rng.Intn(14), h, gate, sizes, "pipelined queries on one server connection (TCP / DoT server + handler) did not each get exactly one intact reply with their own ID and question: ")
 	}
-	r.Finish("(1) queries: IDs, names incl. mixed case / root / long, types and classes, flags, with/without OPT of sizes {0..65535}, malformed stream (QR, 0 or 2 questions, answer/authority records, 2 additionals) x scripted plugin outcome (answer with 0..30 records of up to 250 bytes, rcode 0..15 and extended with OPT, none, error, error after a response) x arrival via UDP, TCP, DoH GET, DoH POST; (2) random chains of 1..4 of {cache, redirect, hosts, black_hole, arbitrary, reject, ttl, ecs, prefer_ipv4, fallback, forward_edns0opt} in front of the scripted upstream, each chain queried 1..3 times; (3) two client queries with different IDs for one cached question (fresh entry / expired entry kept by lazy cache), the first held behind the cache until the second was answered; (4) 2..15 pipelined queries on one non-TCP connection through server.ServeTCP + EntryHandler, all answered at the same moment; non-trivial = valid query")
+	// ---------- (5) the UDP server in front of the handler: bursts of distinct queries (and malformed ones, and datagrams
+	// that are no message) from several client sockets; see serveudp.go
+	for i, ns := 0, r.N(10, 200); i < ns; i++ {
+		if !serveUDP03(r, i) {
+			break
+		}
+	}
+	r.Finish("(1) queries: IDs, names incl. mixed case / root / long, types and classes, flags, with/without OPT of sizes {0..65535}, malformed stream (QR, 0 or 2 questions, answer/authority records, 2 additionals) x scripted plugin outcome (answer with 0..30 records of up to 250 bytes, rcode 0..15 and extended with OPT, none, error, error after a response) x arrival via UDP, TCP, DoH GET, DoH POST; (2) random chains of 1..4 of {cache, redirect, hosts, black_hole, arbitrary, reject, ttl, ecs, prefer_ipv4, fallback, forward_edns0opt} in front of the scripted upstream, each chain queried 1..3 times; (3) two client queries with different IDs for one cached question (fresh entry / expired entry kept by lazy cache), the first held behind the cache until the second was answered; (4) 2..15 pipelined queries on one non-TCP connection through server.ServeTCP + EntryHandler, all answered at the same moment; (5) server.ServeUDP on a loopback socket (bound to 127.0.0.1 or to 0.0.0.0) + EntryHandler + the scripted last plugin of (1): 4..12 bursts from 2..8 client sockets, each socket writing 1..3 datagrams (queries of (1) with distinct IDs, malformed ones, datagrams that are no DNS message) before anything is read, every socket must receive exactly the replies to its own well-formed queries; non-trivial = valid query")
 }
 
 // overlap03: EntryHandler -> [cache, park] with an injected cache entry; query A (id a) is parked behind the cache with
@@ -1026,12 +1043,16 @@ func runC15(r *Run) {
 	for i, nf := 0, r.N(60, 1500); i < nf; i++ {
 		fork15(r, i)
 	}
+	// (4) successive exchanges for one question over one or two caches, options traceable to their exchange (c15.go)
+	for i, nl := 0, r.N(400, 12000); i < nl; i++ {
+		cacheLife15(r, i)
+	}
 	keys := []string{}
 	for k := range r.meta.Dist {
 		keys = append(keys, k)
 	}
 	sort.Strings(keys)
-	r.Finish("client queries without / with one OPT (UDP size {0..65535}, DO, options from {client-subnet, cookie, padding, 65001}) x upstream replies without / with OPT (DO set, any of those options, extended rcode) through the handler alone and through random chains of 1..4 of {cache, ttl, ecs_handler(forward/preset), forward_edns0opt(codes)}, each chain queried 1..3 times (cache hits included); the scripted upstream records the query it is sent; (3) forked sub-queries: a copy of the query context whose OPT is then edited, and fallback with an EDNS0-forwarding plugin in the primary branch only in front of a failing upstream (the secondary upstream records its query); non-trivial = client or upstream OPT present")
+	r.Finish("client queries without / with one OPT (UDP size {0..65535}, DO, options from {client-subnet, cookie, padding, 65001}) x upstream replies without / with OPT (DO set, any of those options, extended rcode) through the handler alone and through random chains of 1..4 of {cache, ttl, ecs_handler(forward/preset), forward_edns0opt(codes)}, each chain queried 1..3 times (cache hits included); the scripted upstream records the query it is sent; (3) forked sub-queries: a copy of the query context whose OPT is then edited, and fallback with an EDNS0-forwarding plugin in the primary branch only in front of a failing upstream (the secondary upstream records its query); (4) 2..5 successive exchanges for one question (UDP/TCP/DoH) through chains of 1..4 of {forward_edns0opt(codes), ecs_handler, ttl} around one or two caches (lazy or not), every option with a payload of its own: reply and upstream query may only carry options of this very exchange that a plugin forwards explicitly, the cache entries (read back after each exchange, and through a dump) never contain an OPT; single-cache chains without ecs_handler are replayed on the model (Model.C15.transact); non-trivial = client or upstream OPT present")
 }
 
 // fork15: (a) a copied context's query OPT is independent of the original's; (b) fallback{primary: [forwarding plugin,
